@@ -11,7 +11,8 @@ from ..runner import ok, fail, discard, HarnessError
 
 PROP = 'C15'
 RULE = ('case = (signals: Sequence sources with value lists, poked wires, combinational functions of them; watch list '
-        'mixing wires, InPort/OutPort aliases and duplicates; run plan of clk(n), pokes and clear()). Non-trivial iff a '
+        'mixing wires, InPort/OutPort aliases and duplicates; run plan of clk(n), pokes, clear() and intermediate renderings; '
+        'the recorder optionally sits in a block with a clock driver object of its own). Non-trivial iff a '
         'watched signal repeats a value for >= 2 consecutive cycles and later changes, and the watch list contains a '
         'duplicate or a port alias. Distinct by JSON hash.')
 ASSUMPTIONS = [
@@ -65,6 +66,32 @@ def decode_lane(lane, width, ncycles, is_clock=False):
     return vals, None
 
 
+class _Probe(py4hw.Logic):
+    def __init__(self, parent, name):
+        super().__init__(parent, name)
+
+
+def check_rendering(case, wf, sigs, expect, flags, when):
+    ncycles = len(expect[0]) if expect else 0
+    for short in flags:
+        wd = wf.get_wavedrom(shortNames=short)
+        lanes = wd.get('signal')
+        if not isinstance(lanes, list) or len(lanes) != 1 + len(case['watch']):
+            return fail('wavedrom|lanes', 'expected {} lanes got {}'.format(1 + len(case['watch']), lanes))
+        n, err = decode_lane(lanes[0], 1, ncycles, is_clock=True)
+        if err or n != ncycles:
+            return fail('wavedrom|clock_lane', 'clock lane {} for {} recorded cycles ({})'.format(lanes[0], ncycles, err))
+        for (kind, i), lane in zip(case['watch'], lanes[1:]):
+            vals, err = decode_lane(lane, sigs[i]['w'], ncycles)
+            if err:
+                return fail('wavedrom|format', 'lane for s{} ({} bits): {}'.format(i, sigs[i]['w'], err))
+            if vals != expect[i]:
+                k = 'span' if len(vals) != len(expect[i]) else 'value'
+                return fail('wavedrom|{}{}'.format(k, '' if when == 'final' else '|' + when),
+                            'lane for s{} decodes to {} expected {} (lane {}, {} rendering, plan {})'.format(i, vals, expect[i], lane, when, case['plan']))
+    return None
+
+
 def run_case(case):
     sigs = case['signals']
     sysm = py4hw.HWSystem()
@@ -95,11 +122,18 @@ def run_case(case):
         else:
             drv = drivers[i]
             watch.append(drv.outPorts[0] if drv is not None else wires[i])
-    wf = py4hw.Waveform(sysm, 'wf', watch)
+    if case.get('wf_block'):
+        # the recorder lives in a block with a clock driver object of its own (not gated), created after the sources
+        blk = _Probe(sysm, 'probe')
+        blk.clockDriver = py4hw.ClockDriver('probeclk', base=sysm.clockDriver)
+        wf = py4hw.Waveform(blk, 'wf', watch)
+    else:
+        wf = py4hw.Waveform(sysm, 'wf', watch)
     sim = sysm.getSimulator()
 
     # reference: value carried into each edge
     poked = {i: 0 for i, s in enumerate(sigs) if s['kind'] == 'poke'}
+    rendered_mid = False
     edge = 0
     expect = {i: [] for i in range(len(sigs))}
 
@@ -123,6 +157,13 @@ def run_case(case):
                 continue
             poked[i] = step[2] & mask(sigs[i]['w'])
             wires[i].put(step[2])
+        elif step[0] == 'render':
+            # the rendering is requested in the middle of the plan as well (one flag, so that the other flag is first
+            # requested later): it must show what was recorded so far
+            r = check_rendering(case, wf, sigs, expect, (bool(step[1]),), 'intermediate')
+            if r:
+                return r
+            rendered_mid = True
         elif step[0] == 'clear':
             wf.clear()
             for k in expect:
@@ -151,21 +192,9 @@ def run_case(case):
         if list(got) != expect[i]:
             kind = 'count' if len(got) != len(expect[i]) else 'value'
             return fail('getDict|' + kind, 'wire s{} ({}) recorded {} expected {} ; plan {}'.format(i, sigs[i], list(got), expect[i], case['plan']))
-    for short in (False, True):
-        wd = wf.get_wavedrom(shortNames=short)
-        lanes = wd.get('signal')
-        if not isinstance(lanes, list) or len(lanes) != 1 + len(case['watch']):
-            return fail('wavedrom|lanes', 'expected {} lanes got {}'.format(1 + len(case['watch']), lanes))
-        n, err = decode_lane(lanes[0], 1, ncycles, is_clock=True)
-        if err or n != ncycles:
-            return fail('wavedrom|clock_lane', 'clock lane {} for {} recorded cycles ({})'.format(lanes[0], ncycles, err))
-        for (kind, i), lane in zip(case['watch'], lanes[1:]):
-            vals, err = decode_lane(lane, sigs[i]['w'], ncycles)
-            if err:
-                return fail('wavedrom|format', 'lane for s{} ({} bits): {}'.format(i, sigs[i]['w'], err))
-            if vals != expect[i]:
-                k = 'span' if len(vals) != len(expect[i]) else 'value'
-                return fail('wavedrom|' + k, 'lane for s{} decodes to {} expected {} (lane {})'.format(i, vals, expect[i], lane))
+    r = check_rendering(case, wf, sigs, expect, (False, True), 'final')
+    if r:
+        return r
     watched = [i for _, i in case['watch']]
     rep = False
     for i in set(watched):
@@ -180,6 +209,10 @@ def run_case(case):
         tags.append('zero_cycles')
     if any(s[0] == 'clear' for s in case['plan']):
         tags.append('clear')
+    if rendered_mid:
+        tags.append('rendered_mid_plan')
+    if case.get('wf_block'):
+        tags.append('recorder_in_own_clock_domain')
     return ok(rep and alias, tags, info={'cycles': ncycles})
 
 
@@ -202,13 +235,15 @@ def case_strategy():
 
     def plan(sigs):
         pk = [i for i, s in enumerate(sigs) if s['kind'] == 'poke']
-        kinds = ['clk'] * 7 + (['poke'] * 4 if pk else []) + ['clear']
+        kinds = ['clk'] * 7 + (['poke'] * 4 if pk else []) + ['clear', 'render', 'render']
 
         def step(kind):
             if kind == 'clk':
                 return st.sampled_from([1, 1, 1, 2, 3, 7]).map(lambda n: ['clk', n])
             if kind == 'poke':
                 return st.tuples(st.sampled_from(pk), st.one_of(st.integers(0, 1), st.integers(0, 300))).map(lambda t: ['poke', t[0], t[1]])
+            if kind == 'render':
+                return st.integers(0, 1).map(lambda f: ['render', f])
             return st.just(['clear'])
         one = st.sampled_from(kinds).flatmap(step)
         return st.sampled_from([0, 1, 2, 4, 6, 8, 10, 12, 16, 20, 30]).flatmap(lambda n: st.lists(one, min_size=n, max_size=n))
@@ -217,7 +252,31 @@ def case_strategy():
         return st.lists(st.tuples(st.sampled_from(['wire', 'wire', 'in', 'out']), st.integers(0, n - 1)).map(list), min_size=1, max_size=6)
 
     return st.integers(1, 5).flatmap(lambda n: signals(n).flatmap(
-        lambda sg: st.fixed_dictionaries({'signals': st.just(sg), 'watch': watch(n), 'plan': plan(sg)})))
+        lambda sg: st.fixed_dictionaries({'signals': st.just(sg), 'watch': watch(n), 'plan': plan(sg), 'wf_block': st.sampled_from([False, False, True])})))
+
+
+@st.composite
+def two_run_cases(draw):
+    """record n cycles, render, clear(), record n cycles again, render: periodic sources whose period divides n make the
+    second recording end on the same values as the first while it differs earlier (the first one starts from power-up)"""
+    n = draw(st.sampled_from([2, 3, 4, 6, 8, 12]))
+    divs = [d for d in range(1, 8) if n % d == 0]
+    sigs = []
+    for i in range(draw(st.integers(1, 3))):
+        w = draw(st.sampled_from([1, 2, 4, 8]))
+        L = draw(st.sampled_from(divs))
+        vals = [draw(st.integers(0, mask(w))) for _ in range(L)]
+        if draw(st.booleans()):
+            vals[-1] = draw(st.integers(1, mask(w)))
+        sigs.append({'kind': 'seq', 'w': w, 'values': vals})
+    if draw(st.booleans()):
+        sigs.append({'kind': 'comb', 'op': draw(st.sampled_from(['not', 'buf'])), 'args': [0], 'w': sigs[0]['w']})
+    watch = draw(st.lists(st.tuples(st.sampled_from(['wire', 'wire', 'in', 'out']), st.integers(0, len(sigs) - 1)).map(list), min_size=1, max_size=4))
+    f = draw(st.integers(0, 1))
+    plan = [['clk', n], ['render', f], ['clear'], ['clk', n]]
+    if draw(st.integers(0, 3)) == 0:
+        plan += [['render', f], ['clear'], ['clk', n]]
+    return {'signals': sigs, 'watch': watch, 'plan': plan, 'wf_block': False}
 
 
 def shrink_candidates(case):
@@ -235,4 +294,5 @@ def shrink_candidates(case):
 
 def strata(tier):
     n = 1500 if tier == 'quick' else 40000
-    return [{'name': 'recordings', 'kind': 'hyp', 'examples': n, 'strategy': case_strategy, 'run_case': run_case}]
+    return [{'name': 'recordings', 'kind': 'hyp', 'examples': n, 'strategy': case_strategy, 'run_case': run_case},
+            {'name': 'record_render_clear_record', 'kind': 'hyp', 'examples': n // 5, 'strategy': two_run_cases, 'run_case': run_case}]
